@@ -151,7 +151,7 @@ class Runtime:
         self.nx = 0
         self.ns = 0
         self.tls = threading.local()
-        self.pending_new = []  # type: List[int]
+        self._pending_new = {}  # type: Dict[int, List[int]]   # per task: objects under construction
         self.alias = []  # type: List[Tuple[int, int]]   # (function whose body runs, member it was called as)
         self.fn_callable = {}  # type: Dict[int, Any]   # plain functions
         self.fn_name = {}  # type: Dict[int, str]
@@ -177,6 +177,10 @@ class Runtime:
 
     def task(self) -> int:
         return getattr(self.tls, "t", 1)
+
+    @property
+    def pending_new(self) -> List[int]:
+        return self._pending_new.setdefault(self.task(), [])
 
     def ip_raw(self) -> Any:
         """Ids the library regards as in progress for the current flow of control (read-only projection)."""
